@@ -1,6 +1,7 @@
 mod absdoc;
 mod docrun;
 mod fsx;
+mod libx;
 mod project;
 mod render;
 mod router;
@@ -18,6 +19,7 @@ fn main() {
         "fs-export" => fsx::cmd_export(rest),
         "doc-replay" => docrun::cmd_replay(rest),
         "doc-project" => docrun::cmd_project(rest),
+        "lib-replay" => libx::cmd_replay(rest),
         other => {
             eprintln!("unknown subcommand {}", other);
             2
